@@ -232,6 +232,10 @@ func check(s *sim, w workload, res *runResult) {
 		add("node-panic", "a node goroutine panicked (the real process would exit): "+strings.Join(s.panics, " | "))
 		return
 	}
+	if len(s.shadowViol) > 0 {
+		add("not-durable", s.shadowViol[0])
+		return
+	}
 	var ops []lin.Op
 	for _, c := range s.clients {
 		for _, o := range c.ops {
